@@ -528,8 +528,17 @@ func c19Atomic(a *ChildArgs, r *rand.Rand, avoid map[string]bool, dir, mode stri
 		args = []string{"lint", "--auto-fix", f.name}
 	}
 	files := []c19File{f}
+	// every second lint case rewrites through a symbolic link: the path then names the link, the bytes live elsewhere
+	viaLink := useLint && idx%4 == 3
+	write := func() {
+		c19WriteFiles(dir, files)
+		if viaLink {
+			os.Rename(filepath.Join(dir, f.name), filepath.Join(dir, "real_"+f.name))
+			os.Symlink("real_"+f.name, filepath.Join(dir, f.name))
+		}
+	}
 	// reference run: the complete new content
-	c19WriteFiles(dir, files)
+	write()
 	ref := c19Exec(dir, nil, args...)
 	if ref.timedOut {
 		a.Rec.Inconclusive("C19/"+mode+"/timeout", "reference run exceeded the watchdog")
@@ -543,6 +552,9 @@ func c19Atomic(a *ChildArgs, r *rand.Rand, avoid map[string]bool, dir, mode stri
 	label := "format-i"
 	if useLint {
 		label = "lint-auto-fix"
+	}
+	if viaLink {
+		label += "-via-symlink"
 	}
 	judge := func(point string, run c19Run) bool {
 		a.Rec.Count("evaluations", 1)
@@ -566,7 +578,7 @@ func c19Atomic(a *ChildArgs, r *rand.Rand, avoid map[string]bool, dir, mode stri
 	if mode == "fsize" {
 		for k := 0; k <= len(newContent); k++ {
 			c19Clean(dir)
-			c19WriteFiles(dir, files)
+			write()
 			run := c19Exec(dir, []string{"/usr/bin/prlimit", fmt.Sprintf("--fsize=%d", k), "--"}, args...)
 			if run.timedOut {
 				a.Rec.Inconclusive("C19/fsize/timeout", "run exceeded the watchdog")
@@ -582,7 +594,7 @@ func c19Atomic(a *ChildArgs, r *rand.Rand, avoid map[string]bool, dir, mode stri
 	for _, sc := range []string{"write", "close", "openat", "rename,renameat,renameat2", "chmod,fchmod,fchmodat", "fsync,fdatasync", "unlink,unlinkat"} {
 		for j := 1; j <= 60; j++ {
 			c19Clean(dir)
-			c19WriteFiles(dir, files)
+			write()
 			run := c19Exec(dir, []string{"/usr/bin/strace", "-f", "-o", "/dev/null", "-e", "trace=" + sc, "-e", fmt.Sprintf("inject=%s:signal=KILL:when=%d", sc, j)}, args...)
 			if run.timedOut {
 				a.Rec.Inconclusive("C19/kill/timeout", "run exceeded the watchdog")
